@@ -33,13 +33,16 @@ TRUSTED_BASE = [
 ]
 ASSUMPTIONS = [
     "Arithmetic is exact over a field; IEEE rounding is outside the theorems",
-    "All image energies are PotentialEnergy values in Hartree and all images of a band have the same number of atoms",
+    "The Coq model has no units: energies are compared after conversion to Hartree (mixed-unit bands are compared with the model for "
+    "increment only; forces on mixed-unit bands are checked by the implementation oracles); all images of a band have the same number of atoms",
     "The tangent is non-zero (otherwise the implementation divides by zero and returns NaN: such generated cases are skipped and counted)",
     "Atom index selections passed to partition are valid indices",
     "partition's Python while-loop is unbounded; the model has fuel 400 (out-of-fuel is an explicit result, never reached by the generated cases)",
 ]
 RULE = ("bands of 2..20 images (quick: 2..8) x 1..3 atoms, coordinates k/8, gradients k/16, force constants k/16, energy profiles "
-        "{rising, falling, peaked, valley, random, flat, exact ties, sub-tolerance near-ties, plateau}; triples for the tangent/force "
+        "{rising, falling, peaked, valley, random, flat, exact ties, sub-tolerance near-ties, plateau}; the same with image energies "
+        "STORED in mixed units (one interior image in kcal mol-1 / end points in eV / random units); every force and derivative "
+        "evaluated twice at the same state (bitwise equal, stored gradients untouched); triples for the tangent/force "
         "functions; end-point pairs x image counts 0..20 for interpolation; random bands x atom selections for the maximum "
         "distance; small molecules x max_delta x selections for from_end_points/partition; a case is non-trivial when it has an "
         "interior image (forces), n >= 3 (interpolation), >= 3 images (max distance) or inserts an image (partition); distinct by inputs")
@@ -112,15 +115,17 @@ def build_images(band):
     """autode Images for a band dict (energies/coords/grads/ks); the image `ci` is a CImage."""
     from autode.neb.original import Images
     from autode.neb.ci import CImage
-    from autode.values import ForceConstant
+    from autode.values import ForceConstant, PotentialEnergy
     kw = {}
     if band.get("min_k") is not None:
         kw = {"min_k": ForceConstant(band["min_k"]), "max_k": ForceConstant(band["max_k"])}
     imgs = Images(init_k=ForceConstant(band["ks"][0]), **kw)
     for x in band["coords"]:
         imgs.append_species(_species(x))
+    units = band.get("units") or ["Ha"] * len(band["energies"])
     for i, im in enumerate(imgs):
-        im.energy = band["energies"][i]
+        # band["energies"] are Hartree values; the image may STORE them in another unit
+        im.energy = band["energies"][i] if units[i] == "Ha" else PotentialEnergy(band["energies"][i], units="Ha").to(units[i])
         im.gradient = np.array(band["grads"][i], dtype=float)
         im.k = ForceConstant(band["ks"][i])
     if band.get("ci") is not None:
@@ -211,6 +216,27 @@ def gen_band(rng, m, natoms, profile):
             "ks": ks, "min_k": lo, "max_k": hi, "ci": ci}
 
 
+UNIT_PATTERNS = ["interior-kcal", "ends-eV", "random-units"]
+
+
+def gen_mixed_band(rng, m, natoms, profile, pattern):
+    """A band whose image energies (well separated: no ties, the storage-unit round trip must not
+    decide a comparison) are NOT all stored in the same unit."""
+    band = gen_band(rng, m, natoms, profile)
+    if pattern == "interior-kcal":
+        units = ["Ha"] * m
+        units[rng.randrange(1, m - 1)] = "kcal mol-1"
+    elif pattern == "ends-eV":
+        units = ["eV"] + ["Ha"] * (m - 2) + ["eV"]
+    else:
+        units = [rng.choice(["Ha", "kcal mol-1", "eV", "kJ mol-1"]) for _ in range(m)]
+        if len(set(units)) == 1:
+            units[rng.randrange(m)] = "eV" if units[0] != "eV" else "Ha"
+    band["units"] = units
+    band["profile"] = f"{profile}/{pattern}"
+    return band
+
+
 # ============================================================================================
 # property-level oracles on the implementation (no model involved)
 def spec_tangent(El, E, Er, xl, x, xr):
@@ -264,7 +290,26 @@ def oracle_band(band):
             with record_norms(log):
                 hat, rxl, rx, rxr = c._tau_xl_x_xr(l, r)
                 f = c.get_force(im_l=l, im_r=r)
-                fc = CImage(c).get_force(im_l=l, im_r=r)
+                cim = CImage(c)
+                fc = cim.get_force(im_l=l, im_r=r)
+            # the same state evaluated again: same force, stored gradient untouched (bitwise)
+            f = np.array(f, dtype=float)
+            fc = np.array(fc, dtype=float)
+            g_ci_after = np.array(cim.gradient, dtype=float)
+            g_after = np.array(c.gradient, dtype=float)
+            f2 = np.array(c.get_force(im_l=l, im_r=r), dtype=float)
+            fc2 = np.array(cim.get_force(im_l=l, im_r=r), dtype=float)
+            if not np.array_equal(g_after, g) or not np.array_equal(np.array(c.gradient, dtype=float), g):
+                fails.append(("Image.get_force|modifies-stored-gradient",
+                              f"image {i}: gradient was {g.tolist()}, after evaluating forces the image holds {np.array(c.gradient, dtype=float).tolist()}"))
+            if not np.array_equal(g_ci_after, g) or not np.array_equal(np.array(cim.gradient, dtype=float), g):
+                fails.append(("CImage.get_force|modifies-stored-gradient",
+                              f"climbing image {i}: gradient was {g.tolist()}, after get_force the image holds {np.array(cim.gradient, dtype=float).tolist()}"))
+            if not np.array_equal(f, f2, equal_nan=True):
+                fails.append(("Image.get_force|not-repeatable", f"image {i}: second evaluation at the same state gives {f2.tolist()}, the first gave {f.tolist()}"))
+            if not np.array_equal(fc, fc2, equal_nan=True):
+                fails.append(("CImage.get_force|not-repeatable",
+                              f"climbing image {i}: second evaluation at the same state gives {fc2.tolist()}, the first gave {fc.tolist()}"))
         except Exception as e:  # noqa
             fails.append(("Image._tau_xl_x_xr|raises",
                           f"image {i} with energies (E_l, E, E_r) = ({El}, {E}, {Er}): {type(e).__name__}: {e}"))
@@ -276,6 +321,12 @@ def oracle_band(band):
             fails.append(("Image._tau_xl_x_xr|coordinates", f"image {i}: returned coordinates are not those of the three images"))
         if abs(float(np.dot(hat, hat)) - 1.0) > TOL:
             fails.append(("Image._tau_xl_x_xr|not-unit", f"image {i}: |tau|^2 = {float(np.dot(hat, hat))!r}"))
+        u3 = (band.get("units") or ["Ha"] * m)[i - 1:i + 2]
+        if not vclose(hat, th) and len(set(u3)) > 1:
+            fails.append(("Image._tau_xl_x_xr|mixed-energy-units",
+                          f"image {i}, energies ({El}, {E}, {Er}) Ha stored in units {u3}: tangent {hat.tolist()} but with every energy "
+                          f"stored in Ha (and by the NEB definition) it is {th.tolist()}"))
+            continue      # the force identities below are stated for the definition's tangent
         if not vclose(hat, th):
             fails.append(("Image._tau_xl_x_xr|tangent-not-by-energy-order",
                           f"image {i}, energies ({El}, {E}, {Er}): tangent {hat.tolist()} but the NEB definition gives {th.tolist()}"))
@@ -303,8 +354,19 @@ def oracle_band(band):
     log = []
     try:
         with record_norms(log):
-            d = np.asarray(derivative(None, imgs_ci, None, 1, False), dtype=float)
+            d = np.array(derivative(None, imgs_ci, None, 1, False), dtype=float)
         obs["derivative"], obs["derivative_norms"] = d, log
+        d2 = np.array(derivative(None, imgs_ci, None, 1, False), dtype=float)
+        if d.shape != d2.shape or not np.array_equal(d, d2, equal_nan=True):   # NaN: zero tangent (degenerate geometry, skipped elsewhere)
+            fails.append(("derivative|not-repeatable",
+                          f"{m} images (climbing image {band.get('ci')}): a second derivative() at the same coordinates differs from the first "
+                          f"by up to {float(np.max(np.abs(d - d2))) if d.shape == d2.shape else 'shape'}"))
+        for j, im in enumerate(imgs_ci):
+            if not np.array_equal(np.array(im.gradient, dtype=float), np.array(band["grads"][j], dtype=float)):
+                fails.append(("derivative|modifies-stored-gradient",
+                              f"image {j}{' (climbing)' if band.get('ci') == j else ''}: stored gradient changed from {band['grads'][j]} "
+                              f"to {np.array(im.gradient, dtype=float).tolist()} by derivative()"))
+                break
         if d.shape != (m * n,):
             fails.append(("derivative|shape", f"derivative has shape {d.shape}, expected ({m * n},)"))
         else:
@@ -687,6 +749,11 @@ def all_cases(ctx):
         t["energies"] = [a / 4.0, b / 4.0, c / 4.0]
         t["profile"] = f"order{a}{b}{c}"
         triples.append(t)
+    mixed = []
+    for m in range(3, mmax + 1):
+        for pattern in UNIT_PATTERNS:
+            for profile in (["up", "down", "peak", "valley"] if full else [rng.choice(["peak", "valley"]), rng.choice(["up", "down", "peak"])]):
+                mixed.append(gen_mixed_band(rng, m, rng.choice([1, 2]), profile, pattern))
     interps = []
     for name, (labels, a, b) in MOLS.items():
         for n in (range(0, 21) if (full or name in ("H3", "H2O")) else (0, 1, 2, 3, 5, 8)):
@@ -737,7 +804,7 @@ def all_cases(ctx):
     for name, labels, coords, md, idxs in fine:
         parts.append({"mol": name + "-fine", "labels": labels, "coords": [list(map(float, c)) for c in coords],
                       "max_delta": md, "idxs": idxs})
-    return {"band": bands, "triple": triples, "interp": interps, "from_end_points": feps, "maxdist": maxd, "partition": parts}
+    return {"band": bands, "triple": triples, "mixed": mixed, "interp": interps, "from_end_points": feps, "maxdist": maxd, "partition": parts}
 
 
 def run(ctx):
@@ -794,7 +861,7 @@ def run(ctx):
         ctx.count(stream, key, nontrivial, sample=dsc)
 
     skipped_deg = 0
-    for kind in ("band", "triple"):
+    for kind in ("band", "triple", "mixed"):
         for band in cases[kind]:
             fails, obs = guarded("band", oracle_band, band, 2)
             report("band", band, fails)
@@ -808,7 +875,11 @@ def run(ctx):
                 skipped_deg += 1
                 ctx.hist("impl-oracle-forces", "degenerate-tangent-skipped")
             dsc = {"images": band["m"], "atoms": band["natoms"], "profile": band["profile"], "energies": band["energies"]}
+            if band.get("units"):
+                ctx.hist("impl-oracle-forces", "energies-stored-in-mixed-units")
             ts = band_terms(band, obs) + (triple_terms(band, obs) if kind == "triple" else [])
+            if kind == "mixed":     # the model has no units: only increment (energies converted to Ha) is compared
+                ts = [(t, w) for t, w in ts if w["what"].startswith("increment")]
             for t, w in ts:
                 add(t, dict(dsc, what=w["what"], band=band), "model-vs-impl-forces", (key, w["what"]), nontrivial=band["m"] > 2)
     for d in cases["interp"]:
